@@ -89,6 +89,9 @@ type event struct {
 type readerInfo struct {
 	tcp   bool
 	setup []setupEntry
+	// number of writes begun when the reader's first SETUP was sent: the key management of that SETUP cannot know about
+	// later ones (-1: not recorded)
+	writesBeforeSetup int
 }
 
 type setupEntry struct {
@@ -483,6 +486,9 @@ func (sc *scenario) newReader1(h *hop, k int, port int, transport string, rng *h
 	if !any {
 		pick[rng.Intn(len(pick))] = true
 	}
+	h.mu.Lock()
+	rd.info.writesBeforeSetup = len(h.writes)
+	h.mu.Unlock()
 	for i, medi := range desc.Medias {
 		if !pick[i] {
 			continue
@@ -1073,6 +1079,11 @@ func (hp *hop) oracle(sc *scenario) []failure {
 		}
 		wa, ok := wrapAt[[2]int{w.m, w.f}]
 		if !ok || w.idx < wa {
+			return false
+		}
+		// the listed finding is the roll-over counter of a SETUP that PRECEDED the wrap; a reader that set the media up
+		// after the wrap had been written was told the current counter and must hear everything
+		if n := hp.readers[r].writesBeforeSetup; n > wa {
 			return false
 		}
 		for wi := range delivered[r] {
@@ -2311,6 +2322,107 @@ func (sc *scenario) runSRTPWrapRepro() *runResult {
 	return res
 }
 
+func (sc *scenario) runSRTPLateJoin() *runResult {
+	res := &runResult{}
+	rng := hx.NewRand(sc.seed)
+	h := &handler{sessIdx: map[*gortsplib.ServerSession]int{}}
+	srv, port, err := startServer(rng, h, 64, false, true)
+	if err != nil {
+		res.fatal = "server start: " + err.Error()
+		return res
+	}
+	defer srv.Close()
+	desc := mkDesc([]int{1})
+	stream := &gortsplib.ServerStream{Server: srv, Desc: desc}
+	if err := stream.Initialize(); err != nil {
+		res.fatal = "stream init: " + err.Error()
+		return res
+	}
+	defer stream.Close()
+	h.stream = stream
+	hp := &hop{name: "stream->readers (TLS+SRTP, a reader leaves, the wrap is written with no secure reader attached, another reader joins)", q: 64}
+	res.hops = append(res.hops, hp)
+	st := stream.Stats()
+	medi := desc.Medias[0]
+	hp.medias = [][]fmtInfo{{{pt: medi.Formats[0].PayloadType(), ssrc: st.Medias[medi].Formats[medi.Formats[0]].LocalSSRC}}}
+	rd, err := sc.newReader(hp, 0, port, "tcp", rng, true)
+	if err != nil {
+		res.fatal = "reader: " + err.Error()
+		return res
+	}
+	hp.readers = []*readerInfo{rd.info}
+	seq := uint16(65536 - 40)
+	idx := 0
+	write := func(n int) {
+		for i := 0; i < n; i++ {
+			w := &wpkt{idx: idx, m: 0, f: 0, seq: seq, ts: uint32(idx) * 3000, pt: hp.medias[0][0].pt, payload: mkPayload(rng, 200, 0, 0, idx)}
+			seq++
+			hp.mu.Lock()
+			hp.writes = append(hp.writes, w)
+			hp.events = append(hp.events, event{kind: evWb, w: idx})
+			hp.mu.Unlock()
+			var full []int
+			h.curFull = &full
+			if err := stream.WritePacketRTP(medi, &rtp.Packet{Header: rtp.Header{Version: 2, PayloadType: w.pt, SequenceNumber: w.seq, Timestamp: w.ts},
+				Payload: append([]byte(nil), w.payload...)}); err != nil {
+				w.errOther = err.Error()
+			}
+			h.curFull = nil
+			w.full = full
+			hp.log(event{kind: evWe, w: idx})
+			idx++
+		}
+	}
+	// reader 0 plays while sequence numbers of the upper half are written, then leaves
+	hp.log(event{kind: evPlayB, r: 0})
+	if _, err := rd.c.Play(nil); err != nil {
+		res.fatal = "play: " + err.Error()
+		rd.c.Close()
+		return res
+	}
+	hp.log(event{kind: evPlayE, r: 0})
+	time.Sleep(20 * time.Millisecond)
+	write(20)
+	drained := waitDrain(hp, 2*time.Second)
+	mark := 0
+	if drained {
+		mark = 1
+	}
+	hp.log(event{kind: evCloseB, r: 0, w: mark})
+	rd.c.Close()
+	hp.log(event{kind: evCloseE, r: 0})
+	time.Sleep(50 * time.Millisecond)
+	// nobody is attached: the writer goes on across 65535 -> 0
+	write(40)
+	// reader 1 sets the media up and plays after the wrap: its key management carries the current counter
+	rd2, err := sc.newReader(hp, 1, port, "tcp", rng, true)
+	if err != nil {
+		res.fatal = "second reader: " + err.Error()
+		return res
+	}
+	hp.mu.Lock()
+	hp.readers = append(hp.readers, rd2.info)
+	hp.mu.Unlock()
+	hp.log(event{kind: evPlayB, r: 1})
+	if _, err := rd2.c.Play(nil); err != nil {
+		res.fatal = "play of the second reader: " + err.Error()
+		rd2.c.Close()
+		return res
+	}
+	hp.log(event{kind: evPlayE, r: 1})
+	time.Sleep(20 * time.Millisecond)
+	write(30)
+	drained = waitDrain(hp, 2*time.Second)
+	mark = 0
+	if drained {
+		mark = 1
+	}
+	hp.log(event{kind: evCloseB, r: 1, w: mark})
+	rd2.c.Close()
+	hp.log(event{kind: evCloseE, r: 1})
+	return res
+}
+
 // ---------------------------------------------------------------- driver
 
 func genScenario(rng *hx.Rand, i int, thorough bool) *scenario {
@@ -2708,6 +2820,20 @@ func main() {
 		res := sc.runSRTPWrapRepro()
 		ctx.Eval()
 		ctx.Kind("corpus:srtp-wrap-repro")
+		if res.fatal != "" {
+			ctx.Failf(0, "scenario-setup-failed", sc.String(), "%s", res.fatal)
+		} else {
+			ctx.Nontrivial(sc.String())
+			for _, f := range res.hops[0].oracle(sc) {
+				ctx.Failf(0, f.class, sc.String(), "hop %s: %s", res.hops[0].name, f.detail)
+			}
+		}
+	}
+	{
+		sc := &scenario{kind: "repro-srtp-latejoin", transport: []string{"tcp"}, nMedias: 1, nFormats: []int{1}, nReaders: 2, q: 64, seed: 12, maxPayload: 1440, tlsOn: true}
+		res := sc.runSRTPLateJoin()
+		ctx.Eval()
+		ctx.Kind("corpus:srtp-late-join-after-wrap")
 		if res.fatal != "" {
 			ctx.Failf(0, "scenario-setup-failed", sc.String(), "%s", res.fatal)
 		} else {
